@@ -41,7 +41,11 @@ def main(argv):
                 finally:
                     core.variant_cwd_done(var[0], cwd)
                 return p.returncode
-        vs = mod.replay(core.dec(body['case']), body.get('seed', core.SEED))
+        if isinstance(body.get('case'), dict) and 'enumerating_units' in body['case']:
+            vs = core.run_units(mod, body['case']['enumerating_units'], jobs=1)['violations'] if True else []
+            vs = [v for v in vs if v['kind'] == 'unexpected-exception' and v['site'].startswith('enumerating-units/')]
+        else:
+            vs = mod.replay(core.dec(body['case']), body.get('seed', core.SEED))
         if os.environ.get('VERIF_VARIANT'):
             for v in vs:
                 v['site'] = '%s@%s' % (v['site'], os.environ['VERIF_VARIANT'])
